@@ -71,6 +71,7 @@ class Recorder:
         self.viol_count = collections.Counter()  # signature -> occurrences (all, not only kept)
         self.rechecked = 0
         self.nondet = []              # determinism self-check failures
+        self.blobs = {}               # key -> payload handed to a second stage by the master
 
     # --- recording ---------------------------------------------------------------------------
     def violation(self, signature, case, expected=None, observed=None, detail=None):
@@ -97,6 +98,8 @@ class Recorder:
         self.samples.extend(o.samples)
         self.rechecked += o.rechecked
         self.nondet.extend(o.nondet[:3])
+        for k, v in o.blobs.items():
+            self.blobs.setdefault(k, v)
         for v in o.violations:
             self.violations.append(v)
         self.viol_count.update(o.viol_count)
